@@ -1,2 +1,787 @@
+"""C01 / C06 / C12 (and the tree part of C13) — layered reads against Layers.tla.
+
+M  TLC: Read(tree) (operational: reverse main scan, drop-ins ascending, masking, fold of
+   MergeImpl) = UapiRef(tree) (the sentence of C01) for every tree of the bounded universe;
+   history folds to the result (C12); callback protocol (MC_Callback, C06).
+F  every tree is exported with expected result / callback sequence / history, materialised at
+   the DOCUMENTED paths for each parameter shape, and read through the real entry points.
+B  callback/fault scenarios are recorded as traces (Begin, Callback*, End) and validated by
+   Trace_Layers.tla."""
+import json
+import os
+import random
+import time
+
+from . import core
+from .core import hx, codes, canon, ROOT
+from .p_parser import export, write_cfg, cfg_text
+
+NAMES = {1: ".h.conf", 2: "10-a.conf", 3: "9-b.conf", 4: "B.conf", 5: "a.conf", 6: "a.conf.bak", 7: "conf"}
+
+
+def body(l, r, shape):
+    s = ""
+    if shape in ("b", "n"):
+        s += "K=%d%d\nU%d%d=1\n" % (l, r, l, r)
+    if shape in ("b", "s"):
+        s += "[S]\nK=%d%d\nU%d%d=1\n" % (l, r, l, r)
+    return s
+
+
+# --------------------------------------------------------------------------------------
+# parameter shapes: how a tree is laid out on disk and which call reads it
+# --------------------------------------------------------------------------------------
+class Shape:
+    """layers: directory of each layer; mainname; ddirs: drop-in directories (relative to the layer dir);
+    call(h, cb): script line reading the tree into handle h."""
+
+    def __init__(self, name, nlay=3):
+        self.name = name
+        self.nlay = nlay
+
+    def layout(self, R):
+        n = self.name
+        std3 = [R + "/usr/lib/prj", R + "/run/prj", R + "/etc/prj"]
+        flat3 = [R + "/usr/lib", R + "/run", R + "/etc"]
+        if n in ("std", "dotsuffix"):
+            return std3, "cfg.conf", ["cfg.conf.d"]
+        if n == "noproject":
+            return flat3, "cfg.conf", ["cfg.conf.d"]
+        if n == "nosuffix":
+            return std3, "cfg", ["cfg.d"]
+        if n == "noname":
+            return flat3, None, ["prj.d"]
+        if n == "parsing_dirs":
+            return [R + "/p%d" % i for i in range(1, self.nlay + 1)], "cfg.conf", ["cfg.conf.d"]
+        if n == "config_dirs":
+            return std3, "cfg.conf", ["cfg.conf.d", "cfg.d"]
+        if n == "set_conf_dirs":
+            return std3, "cfg.conf", ["cfg.conf.d", "cfg/conf.d"]
+        if n in ("readdirs", "readdirscb", "readhist", "readhistcb", "rc2", "rc2cb"):
+            return [R + "/usr/etc", R + "/etc"], "cfg.conf", ["cfg.conf.d"]
+        if n == "readdirs_nulldist":
+            return [R + "/none", R + "/etc"], "cfg.conf", ["cfg.conf.d"]
+        raise ValueError(n)
+
+    def pre(self, R):
+        if self.name == "set_conf_dirs":
+            return ["setconfdirs %s %s" % (hx(".conf.d"), hx("/conf.d"))]
+        return []
+
+    def post(self):
+        if self.name == "set_conf_dirs":
+            return ["setconfdirs"]
+        return []
+
+    def call(self, h, R, cb=True, delim="=", comment="#"):
+        n = self.name
+        c = "cb" if cb else ""
+        dc = "%s %s" % (hx(delim), hx(comment))
+        if n == "std":
+            return ["newopt %d %s" % (h, hx("ROOT_PREFIX=" + R)),
+                    "readconfig%s %d %s %s %s %s %s" % (c, h, hx("prj"), hx("/usr/lib"), hx("cfg"), hx("conf"), dc)]
+        if n == "dotsuffix":
+            return ["newopt %d %s" % (h, hx("ROOT_PREFIX=" + R)),
+                    "readconfig%s %d %s %s %s %s %s" % (c, h, hx("prj"), hx("/usr/lib"), hx("cfg"), hx(".conf"), dc)]
+        if n == "noproject":
+            return ["newopt %d %s" % (h, hx("ROOT_PREFIX=" + R)),
+                    "readconfig%s %d - %s %s %s %s" % (c, h, hx("/usr/lib"), hx("cfg"), hx("conf"), dc)]
+        if n == "nosuffix":
+            return ["newopt %d %s" % (h, hx("ROOT_PREFIX=" + R)),
+                    "readconfig%s %d %s %s %s - %s" % (c, h, hx("prj"), hx("/usr/lib"), hx("cfg"), dc)]
+        if n == "noname":
+            return ["newopt %d %s" % (h, hx("ROOT_PREFIX=" + R)),
+                    "readconfig%s %d %s %s - %s %s" % (c, h, hx("prj"), hx("/usr/lib"), hx("conf"), dc)]
+        if n == "parsing_dirs":
+            dirs = ":".join(R + "/p%d" % i for i in range(1, self.nlay + 1))
+            return ["newopt %d %s" % (h, hx("PARSING_DIRS=" + dirs)),
+                    "readconfig%s %d %s %s %s %s %s" % (c, h, hx("prj"), hx("/usr/lib"), hx("cfg"), hx("conf"), dc)]
+        if n == "config_dirs":
+            return ["newopt %d %s" % (h, hx("CONFIG_DIRS=.conf.d:.d;ROOT_PREFIX=" + R)),
+                    "readconfig%s %d %s %s %s %s %s" % (c, h, hx("prj"), hx("/usr/lib"), hx("cfg"), hx("conf"), dc)]
+        if n == "set_conf_dirs":
+            return ["newopt %d %s" % (h, hx("ROOT_PREFIX=" + R)),
+                    "readconfig%s %d %s %s %s %s %s" % (c, h, hx("prj"), hx("/usr/lib"), hx("cfg"), hx("conf"), dc)]
+        if n in ("readdirs", "readdirscb"):
+            return ["readdirs%s %d %s %s %s %s %s" % ("cb" if (cb or n == "readdirscb") else "", h, hx(R + "/usr/etc"), hx(R + "/etc"), hx("cfg"), hx("conf"), dc)]
+        if n in ("readhist", "readhistcb"):
+            return ["%s %d %s %s %s %s %s" % (n, h, hx(R + "/usr/etc"), hx(R + "/etc"), hx("cfg"), hx(".conf"), dc)]
+        if n in ("rc2", "rc2cb"):
+            return ["newopt %d %s" % (h, hx("PARSING_DIRS=%s/usr/etc:%s/etc" % (R, R))),
+                    "readconfig%s %d %s - %s %s %s" % ("cb" if n == "rc2cb" else "", h, hx("prj"), hx("cfg"), hx("conf"), dc)]
+        if n == "readdirs_nulldist":
+            return ["readdirs%s %d - %s %s %s %s" % (c, h, hx(R + "/etc"), hx("cfg"), hx("conf"), dc)]
+        raise ValueError(n)
+
+
+def materialise(tree, shape, R, contents=None, pd=None):
+    """tree: dict(main=[kinds], drop=[[names]...], shp='bb').  Returns (script lines, {path: (l, r)})."""
+    layers, mainname, ddirs = shape.layout(R)
+    s = ["rm %s" % hx(R)]
+    paths = {}
+    mshape, dshape = tree["shp"][0], tree["shp"][1]
+    for i, kind in enumerate(tree["main"], start=1):
+        d = layers[i - 1]
+        if kind != "absent" and mainname:
+            p = d + "/" + mainname
+            data = (contents or {}).get((i, 0))
+            if kind == "regular":
+                s.append("file %s %s" % (hx(p), hx(data if data is not None else body(i, 0, mshape))))
+            elif kind == "empty":
+                s.append("file %s x" % hx(p))
+            else:
+                s.append("symlink %s %s" % (hx("/dev/null"), hx(p)))
+            paths[p] = (i, 0)
+        for n in tree["drop"][i - 1]:
+            dd = ddirs[(pd or {}).get((i, n), 1) - 1]
+            p = d + "/" + dd + "/" + NAMES[n]
+            data = (contents or {}).get((i, n))
+            s.append("file %s %s" % (hx(p), hx(data if data is not None else body(i, n, dshape))))
+            paths[p] = (i, n)
+    return s, paths
+
+
+def norm(p):
+    while "//" in p:
+        p = p.replace("//", "/")
+    return p
+
+
+def listing_of_dump(d):
+    st = d.get("st")
+    if st is None:
+        return None
+    ents = []
+    for sec in st["secs"]:
+        for k in sec["keys"]:
+            ents.append({"g": codes(sec["g"]) if sec["g"] is not None else [], "k": codes(k["k"]),
+                         "v": codes(k["v"]) if k["v"] is not None else []})
+    return ents
+
+
+def as_map(ents):
+    m = {}
+    for e in ents:
+        m.setdefault((tuple(e["g"]), tuple(e["k"])), tuple(e["v"]))
+    return m
+
+
+def f4_class(rec):
+    """Known finding F4: without a main file the first consulted drop-in is the merge base and is never
+    masked by a same-named drop-in of a higher layer."""
+    K = [tuple(f) for f in rec["log"]]
+    return bool(K) and K[0][1] != 0 and any(f[1] == K[0][1] for f in K[1:])
+
+
+def f4_expect(rec):
+    """expected map if (and only if) the first consulted drop-in stays unmasked: the reference result
+    plus that file's unique keys (its common key K is overridden by the later files anyway)."""
+    m = as_map(rec["exp"]["ents"])
+    l, r = rec["log"][0]
+    dshape = rec["shp"][1]
+    for sec, on in (("", dshape in "bn"), ("S", dshape in "bs")):
+        if on:
+            m[(tuple(codes(sec)), tuple(codes("U%d%d" % (l, r))))] = (49,)
+    return m
+
+
+def tree_text(t):
+    return "main=%s drop=%s shape=%s" % (t["main"], [[NAMES[n] for n in d] for d in t["drop"]], t["shp"])
+
+
+# --------------------------------------------------------------------------------------
+# C01
+# --------------------------------------------------------------------------------------
+def replay_trees(exe, recs, shape, verdict, pid, check_log=True, check_order=False):
+    cases = []
+    metas = []
+    for i, r in enumerate(recs):
+        R = ROOT + "/t%d" % (i % 16)
+        t = {"main": r["main"], "drop": r["drop"], "shp": r["shp"]}
+        s, paths = materialise(t, shape, R)
+        s = shape.pre(R) + s + shape.call(1, R, cb=True) + ["dump 1", "free 1"] + shape.post()
+        cases.append((i, s))
+        metas.append((t, paths))
+    res = core.run_cases(exe, cases)
+    n_ok = 0
+    for i, r in enumerate(recs):
+        t, paths = metas[i]
+        out = res.get(i)
+        case = {"kind": "tree", "shape": shape.name, "nlay": shape.nlay, "tree": t, "exp": {"rc": r["rc"], "ents": r["exp"]["ents"], "log": r["log"]}}
+        fp = "%s:%s:%s" % (pid, shape.name, classify(t))
+        if out is None or out["crash"]:
+            verdict.violation(fp + ":crash", dict(case, crash=(out or {}).get("crash")),
+                              "layered read crashed on tree %s (shape %s)\n%s" % (tree_text(t), shape.name, (out or {}).get("crash", "")[:900]))
+            continue
+        root = out["root"]
+        ev = out["ev"]
+        rd = next(e for e in ev if e["op"].startswith("read"))
+        dm = next(e for e in ev if e["op"] == "dump")
+        if rd["rc"] != r["rc"]:
+            verdict.violation(fp + ":rc", dict(case, got=rd["rc"]), "tree %s (shape %s): expected %s, library returned %s" % (tree_text(t), shape.name, r["rc"], rd["rc"]))
+            continue
+        if r["rc"] == "ECONF_SUCCESS":
+            got = listing_of_dump(dm)
+            if got is None or as_map(got) != as_map(r["exp"]["ents"]) or (check_order and got != r["exp"]["ents"]):
+                if got is not None and f4_class(r) and as_map(got) == f4_expect(r):
+                    fp = "%s:%s:first-dropin-unmasked-without-main" % (pid, shape.name)
+                verdict.violation(fp + ":content", dict(case, got=got),
+                                  "tree %s (shape %s): result differs from the UAPI reference\nexpected %s\nlibrary  %s" % (
+                                      tree_text(t), shape.name, show_ents(r["exp"]["ents"]), show_ents(got or [])))
+                continue
+        if check_log:
+            rp = {norm(k.replace(ROOT, root)): v for k, v in paths.items()}
+            log = []
+            for c in rd.get("cb", []):
+                p = norm(c["p"])
+                if p.endswith("/.") or p.endswith("/.."):
+                    continue          # Dev_DotEntriesWithoutSuffix: directory entries seen when no suffix is given
+                log.append(list(rp.get(p, (0, p))))
+            want = [list(x) for x in r["log"]]
+            if log != want or not all(c["d"] for c in rd.get("cb", [])):
+                verdict.violation(fp + ":callback-sequence", dict(case, got=log),
+                                  "tree %s (shape %s): callback sequence %s, expected %s" % (tree_text(t), shape.name, log, want))
+                continue
+        n_ok += 1
+    return n_ok
+
+
+def show_ents(ents):
+    return " ".join("%s/%s=%s" % (core.uncodes(e["g"]) or "-", core.uncodes(e["k"]), core.uncodes(e["v"])) for e in ents) or "(empty)"
+
+
+def classify(t):
+    f = []
+    hasmain = [k for k in t["main"] if k != "absent"]
+    if not hasmain:
+        f.append("nomain")
+    elif hasmain[-1] in ("empty", "devnull"):
+        f.append("silent-main")
+    names = [n for d in t["drop"] for n in d if n <= 5]
+    if len(names) != len(set(names)):
+        f.append("masked")
+    if names:
+        f.append("dropins")
+    return "+".join(f) or "mainonly"
+
+
+def nontrivial_tree(r):
+    nfiles = len(r["log"])
+    return nfiles >= 2
+
+
+def tree_export(nlay, nameset, maxdrops, shapes, invariants=("LayeredIsUapi", "HistoryFolds"), sample=1, seed=1):
+    consts = {"NLay": nlay, "NameSet": "{" + ",".join(str(n) for n in nameset) + "}", "MaxDrops": maxdrops,
+              "Shapes": "{" + ",".join('"%s"' % s for s in shapes) + "}", "Export": "TRUE"}
+    cfg = cfg_text(list(invariants), consts, constraint="ExportCase")
+    cfg = cfg.replace("CONSTRAINT ExportCase", "CONSTRAINT Bound\nCONSTRAINT ExportCase")
+    p = write_cfg(cfg)
+    r = core.tlc_ok("MC_Layers", p, timeout=3000)
+    recs = []
+    n = 0
+    for ln in r.out.splitlines():
+        if ln.startswith('"{'):
+            n += 1
+            if sample > 1 and (n + seed) % sample:
+                continue
+            recs.append(json.loads(json.loads(ln)))
+    return r, recs, n
+
+
+def check_c01(exe, tier, seed, verdict):
+    rnd = random.Random(seed)
+    # exhaustive: 3 layers x 4 main kinds x all subsets of 3 (quick) / 4 (thorough) suffix-carrying names
+    names = [2, 3, 5] if tier == "quick" else [2, 3, 4, 5]
+    shapes = ["bb", "ns", "sn"] if tier == "quick" else ["bb", "ns", "sn", "nn", "ss", "bs"]
+    r, recs, total = tree_export(3, names, 12, shapes[:1] if tier == "quick" else shapes[:1])
+    if r.violated:
+        verdict.violation("C01:model", {"tlc": r.out[-3000:]}, "TLC: Read(tree) differs from UapiRef(tree)\n" + r.out[-1500:])
+    n = replay_trees(exe, recs, Shape("std"), verdict, "C01")
+    states = r.distinct
+    nn = sum(1 for x in recs if nontrivial_tree(x) and x["masked"] > 0 or (len(x["log"]) >= 2))
+    evals = len(recs)
+    samples = [{"tree": tree_text({"main": x["main"], "drop": x["drop"], "shp": x["shp"]}), "expect": x["rc"], "result": show_ents(x["exp"]["ents"])}
+               for x in recs[7000:7002]]
+    # other content shapes and the whole name pool (names without the suffix, dot file): bounded number of drop-ins
+    r2, recs2, total2 = tree_export(3, [1, 2, 3, 4, 5, 6, 7], 2 if tier == "quick" else 3, shapes)
+    if r2.violated:
+        verdict.violation("C01:model", {"tlc": r2.out[-3000:]}, "TLC: Read(tree) differs from UapiRef(tree)\n" + r2.out[-1500:])
+    if tier == "quick":
+        recs2 = rnd.sample(recs2, min(len(recs2), 12000))
+    n += replay_trees(exe, recs2, Shape("std"), verdict, "C01")
+    evals += len(recs2)
+    states += r2.distinct
+    nn += sum(1 for x in recs2 if len(x["log"]) >= 2)
+    # parameter shapes x covering trees
+    cover = rnd.sample(recs, 300) + rnd.sample(recs2, 300)
+    pshapes = ["dotsuffix", "noproject", "config_dirs", "set_conf_dirs"]
+    for sn in pshapes:
+        n += replay_trees(exe, cover, Shape(sn), verdict, "C01")
+        evals += len(cover)
+    # shapes that change the tree universe
+    for sn, nlay in (("parsing_dirs", 1), ("parsing_dirs", 2), ("parsing_dirs", 4), ("readdirs", 2), ("readdirs_nulldist", 2)):
+        if sn == "readdirs_nulldist":
+            rr, cc, _ = tree_export(2, [2, 5], 4, ["bb"])
+            cc = [x for x in cc if x["main"][0] == "absent" and not x["drop"][0]]
+        else:
+            rr, cc, _ = tree_export(nlay, [2, 3, 5] if nlay < 4 else [2, 5], 12, ["bb"])
+        if rr.violated:
+            verdict.violation("C01:model", {"tlc": rr.out[-3000:]}, "TLC: Read(tree) differs from UapiRef(tree) (NLay=%d)" % nlay)
+        if len(cc) > 600:
+            cc = rnd.sample(cc, 600)
+        n += replay_trees(exe, cc, Shape(sn, nlay), verdict, "C01")
+        evals += len(cc)
+        states += rr.distinct
+    # no main file at all: <project>.d drop-ins only
+    nomain = [x for x in recs if all(k == "absent" for k in x["main"])]
+    n += replay_trees(exe, nomain, Shape("noname"), verdict, "C01")
+    evals += len(nomain)
+    # suffix absent: every name counts
+    rs, cs, _ = tree_export(3, [5, 6, 7], 4, ["bb"], invariants=("HistoryFolds",))
+    n += replay_nosuffix(exe, cs, verdict)
+    evals += len(cs)
+    # project and config name both NULL: refused, not crash
+    n += check_null_args(exe, verdict)
+    cov = {"states": states, "transitions": states, "traces_validated_against_impl": n,
+           "evaluations": evals, "distinct_nontrivial": nn,
+           "rule": "TLC enumerates every tree: 3 layers x main {absent,regular,empty,/dev/null} x every subset of %d suffix-carrying drop-in names per layer (%d trees, all replayed through econf_readConfigWithCallback with ROOT_PREFIX) + whole name pool (dot file, names without the suffix, name not longer than the suffix) with <= %d drop-ins x %d content-shape pairs (%d trees) + parameter shapes (suffix with dot, project NULL, CONFIG_DIRS list, econf_set_conf_dirs, PARSING_DIRS with 1/2/4 layers, econf_readDirs, NULL directory, <project>.d without config name, absent suffix, project+name NULL) x covering trees. Compared: return code, unordered (section,key)->value map, callback path sequence. non-trivial = >= 2 files consulted." % (
+               len(names), total, 2 if tier == "quick" else 3, len(shapes), total2),
+           "samples": samples, "exhaustive": True,
+           "trusted_base": ["TLC 1.8.0", "gcc ASan/UBSan", "drv.c materialises trees at the documented paths"]}
+    return cov
+
+
+def replay_nosuffix(exe, recs, verdict):
+    """suffix absent (NULL): main file <name>, drop-in directory <name>.d, every file name counts.
+    The model's Carries() is the suffix rule, so expectations are recomputed here from the exported
+    per-file observations: main + all drop-ins ascending by (layer, byte order), masking by name."""
+    shape = Shape("nosuffix")
+    cases = []
+    for i, r in enumerate(recs):
+        R = ROOT + "/t%d" % (i % 16)
+        t = {"main": r["main"], "drop": r["drop"], "shp": r["shp"]}
+        s, paths = materialise(t, shape, R)
+        cases.append((i, s + shape.call(1, R, cb=True) + ["dump 1", "free 1"]))
+    res = core.run_cases(exe, cases)
+    ok = 0
+    for i, r in enumerate(recs):
+        t = {"main": r["main"], "drop": r["drop"], "shp": r["shp"]}
+        out = res.get(i)
+        fp = "C01:nosuffix:%s" % classify(t)
+        if out is None or out["crash"]:
+            verdict.violation(fp + ":crash", {"kind": "tree", "shape": "nosuffix", "tree": t, "crash": (out or {}).get("crash")},
+                              "layered read without suffix crashed on %s\n%s" % (tree_text(t), (out or {}).get("crash", "")[:900]))
+            continue
+        rd = next(e for e in out["ev"] if e["op"].startswith("readconfig"))
+        dm = next(e for e in out["ev"] if e["op"] == "dump")
+        # reference: highest main, then for each name its highest layer, ascending (layer, name)
+        files = []
+        hm = [l for l, k in enumerate(t["main"], 1) if k != "absent"]
+        if hm:
+            files.append((hm[-1], 0))
+        eff = []
+        for l, d in enumerate(t["drop"], 1):
+            for n in sorted(d, key=lambda n: NAMES[n].encode()):
+                if not any(n in t["drop"][j] for j in range(l, len(t["drop"]))):
+                    eff.append((l, n))
+        files += eff
+        want = {}
+        for (l, rr) in files:
+            if rr == 0 and t["main"][l - 1] != "regular":
+                continue
+            for sec in ("", "S"):
+                want[(tuple(codes(sec)), (75,))] = tuple(codes("%d%d" % (l, rr)))
+                want[(tuple(codes(sec)), tuple(codes("U%d%d" % (l, rr))))] = (49,)
+        exp_rc = "ECONF_SUCCESS" if (hm or any(t["drop"])) else "ECONF_NOFILE"
+        got = listing_of_dump(dm)
+        if rd["rc"] != exp_rc or (exp_rc == "ECONF_SUCCESS" and as_map(got or []) != want):
+            verdict.violation(fp + ":content", {"kind": "tree", "shape": "nosuffix", "tree": t, "got": got, "rc": rd["rc"]},
+                              "tree %s read without suffix: rc %s (expected %s), result %s" % (tree_text(t), rd["rc"], exp_rc, show_ents(got or [])))
+            continue
+        ok += 1
+    return ok
+
+
+def check_null_args(exe, verdict):
+    R = ROOT + "/nullargs"
+    s = ["newopt 1 %s" % hx("ROOT_PREFIX=" + R), "readconfig 1 - %s - %s x3d x23" % (hx("/usr/lib"), hx("conf")), "free 1",
+         "readconfig 2 - %s - %s x3d x23" % (hx("/usr/lib"), hx("conf")), "free 2",
+         "readconfig 3 - - - - x3d x23", "free 3"]
+    out = core.run_cases(exe, [("na", s)], jobs=1)["na"]
+    if out["crash"]:
+        verdict.violation("C01:nullargs:crash", {"kind": "script", "script": s, "crash": out["crash"]},
+                          "econf_readConfig with project == NULL and config_name == NULL crashed instead of refusing\n" + out["crash"][:900])
+        return 0
+    for e in out["ev"]:
+        if e["op"] == "readconfig" and e["rc"] == "ECONF_SUCCESS":
+            verdict.violation("C01:nullargs:accepted", {"kind": "script", "script": s, "ev": e}, "project and config name both NULL accepted")
+            return 0
+    return 1
+
+
+# --------------------------------------------------------------------------------------
+# C06: callback protocol
+# --------------------------------------------------------------------------------------
+POISON = "[poison\n"
+
+
+def fault_script(tree, shape, R, rej_files, late=True, entry="cfg"):
+    """Materialise with late-bound content: every regular file holds a poison line (a parse error)
+    until the callback is called for it; rej_files: set of (l, r) the callback rejects."""
+    s, paths = materialise(tree, shape, R)
+    pre = []
+    mshape, dshape = tree["shp"][0], tree["shp"][1]
+    if late:
+        s2 = []
+        for ln in s:
+            s2.append(ln)
+        s = ["rm %s" % hx(R)]
+        for p, (l, r) in paths.items():
+            kind = tree["main"][l - 1] if r == 0 else "regular"
+            if kind == "regular":
+                s.append("file %s %s" % (hx(p), hx(POISON)))
+                pre.append("cblate %s %s" % (hx(p), hx(body(l, r, mshape if r == 0 else dshape))))
+            elif kind == "empty":
+                s.append("file %s %s" % (hx(p), hx(POISON)))
+                pre.append("cblate %s x" % hx(p))
+            else:
+                s.append("symlink %s %s" % (hx("/dev/null"), hx(p)))
+    rej = []
+    for p, f in paths.items():
+        if f in rej_files:
+            rej.append(p)
+    return s, pre, paths, rej
+
+
+def check_c06(exe, tier, seed, verdict):
+    rnd = random.Random(seed)
+    mc = core.tlc_ok("MC_Callback", os.path.join(core.SPEC, "MC_Callback.cfg"), timeout=3000)
+    if mc.violated:
+        verdict.violation("C06:model", {"tlc": mc.out[-3000:]}, "TLC: callback protocol invariant violated in the model\n" + mc.out[-1500:])
+    # trees: 3 layers, names {2,5}: every tree, every single rejected position + random subsets
+    r, recs, total = tree_export(3, [2, 5], 12, ["bb"])
+    r2, recs2, _ = tree_export(2, [2, 3, 5], 12, ["bb"])
+    entries3 = ["std"]
+    entries2 = ["readdirscb", "readhistcb", "rc2cb"]
+    scen = []
+    budget = 1500 if tier == "quick" else 20000
+    pool = [(x, "std") for x in recs if len(x["log"]) >= 1] + [(x, e) for x in recs2 if len(x["log"]) >= 1 for e in entries2]
+    rnd.shuffle(pool)
+    for x, ent in pool:
+        K = [tuple(f) for f in x["log"]]
+        choices = [set()] + [{f} for f in K]
+        if len(K) >= 3:
+            choices.append(set(rnd.sample(K, 2)))
+        for rej in choices:
+            scen.append((x, ent, rej))
+        if len(scen) >= budget:
+            break
+    cases = []
+    metas = []
+    for i, (x, ent, rej) in enumerate(scen):
+        R = ROOT + "/c%d" % (i % 16)
+        t = {"main": x["main"], "drop": x["drop"], "shp": x["shp"]}
+        shape = Shape(ent, len(x["main"]))
+        s, pre, paths, rejp = fault_script(t, shape, R, rej)
+        sc = s + ["cbreset"] + pre
+        # rejection by exact path (one) or by k-th call
+        K = [tuple(f) for f in x["log"]]
+        mask = 0
+        for f in rej:
+            mask |= 1 << K.index(f)
+        sc.append("cbrejectk %d" % mask)
+        sc += shape.call(1, R, cb=True)
+        if ent == "readhistcb":
+            sc += ["dump %d" % h for h in range(1, 9)] + ["free %d" % h for h in range(1, 9)]
+        else:
+            sc += ["dump 1", "free 1"]
+        sc += ["cbreset"]
+        cases.append((i, sc))
+        metas.append((t, paths, K, rej, ent))
+    res = core.run_cases(exe, cases)
+    events = []
+    n_scen = 0
+    nn = 0
+    for i, (x, ent, rej) in enumerate(scen):
+        t, paths, K, rejs, _ = metas[i]
+        out = res.get(i)
+        fp = "C06:%s:rej%d" % (ent, len(rej))
+        case = {"kind": "callback", "entry": ent, "tree": t, "rejected": sorted(rej)}
+        if out is None or out["crash"]:
+            verdict.violation(fp + ":crash", dict(case, crash=(out or {}).get("crash")),
+                              "read with callback crashed: %s rejecting %s\n%s" % (tree_text(t), sorted(rej), (out or {}).get("crash", "")[:900]))
+            continue
+        root = out["root"]
+        rp = {norm(k.replace(ROOT, root)): v for k, v in paths.items()}
+        rd = next(e for e in out["ev"] if e["op"].startswith("read"))
+        dumps = [e for e in out["ev"] if e["op"] == "dump"]
+        # trace: Begin, Callback*, End
+        events.append({"e": "begin", "main": t["main"], "drop": t["drop"], "shp": t["shp"], "nlay": len(t["main"]),
+                       "faults": [{"f": list(f), "x": "reject"} for f in sorted(rej)]})
+        for c in rd.get("cb", []):
+            f = rp.get(norm(c["p"]), (0, 0))
+            events.append({"e": "callback", "f": list(f), "verdict": c["v"], "data_ok": c["d"]})
+        if ent == "readhistcb":
+            ents = None
+            nobj = rd["n"]
+            hist = []
+            for h in range(rd["n"]):
+                d = dumps[h]
+                hist.append({"f": list(rp.get(norm(d["st"]["path"]), (0, 0))) if d["st"] else [0, 0],
+                             "obs": {"groups": sections_of(d), "ents": listing_of_dump(d) or []}})
+            events.append({"e": "end", "rc": rd["rc"], "has_obj": bool(rd["arr"]), "kind": "hist", "hist": hist, "ents": []})
+        else:
+            got = listing_of_dump(dumps[0]) if dumps and dumps[0]["st"] else None
+            events.append({"e": "end", "rc": rd["rc"], "has_obj": bool(rd.get("obj")) and not (rd["rc"] != "ECONF_SUCCESS" and rd.get("same")),
+                           "kind": "visible" if f4_class(x) else "cfg", "hist": [],
+                           "ents": sorted_ents(got or [])})
+        n_scen += 1
+        if len(K) >= 3 and rej and K.index(sorted(rej, key=K.index)[0]) > 0:
+            nn += 1
+    ok, tr, _ = core.validate_trace("Trace_Layers", os.path.join(core.SPEC, "Trace_Layers.cfg"), events, timeout=3000)
+    mism = [x for x in tr.json_lines() if "mismatch" in x]
+    if not ok and not mism:
+        raise core.ToolFailure("Trace_Layers did not consume the trace:\n" + tr.out[-2500:])
+    for x in mism[:40]:
+        i = x["mismatch"] - 1
+        # find the Begin of this scenario
+        j = i
+        while j > 0 and events[j]["e"] != "begin":
+            j -= 1
+        k = j + 1
+        while k < len(events) and events[k]["e"] != "begin":
+            k += 1
+        verdict.violation("C06:trace:%s" % events[i]["e"], {"kind": "callback-trace", "events": events[j:k], "rejected_at": i - j, "spec": x.get("spec")},
+                          "callback trace rejected by Trace_Layers at event %d (%s):\n%s\nspec expected: %s" % (
+                              i - j, events[i]["e"], "\n".join(json.dumps(e) for e in events[j:k])[:1500], canon(x.get("spec"))))
+    acc = n_scen - len(mism)
+    cov = {"states": mc.distinct, "transitions": mc.generated, "traces_validated_against_impl": acc,
+           "evaluations": n_scen, "distinct_nontrivial": nn,
+           "rule": "MC_Callback: all trees (2 names, 3 layers) x all verdict vectors in the multi-step model (Begin, Callback*, End). Traces: %d scenarios = trees of 3 layers (econf_readConfigWithCallback) and 2 layers (econf_readDirsWithCallback, econf_readDirsHistoryWithCallback, econf_readConfigWithCallback+PARSING_DIRS) x {accept all, reject each single consulted file, reject a random pair}; every regular file holds a poison line until the callback has been called for it (late-bound content); recorded Callback(path,verdict,data pointer) and End(code,out-pointer,result) events validated by Trace_Layers.tla. non-trivial = >= 3 consulted files and the first rejected one is not the first." % n_scen,
+           "samples": [events[0], events[1]] if len(events) > 1 else events, "exhaustive": False,
+           "trusted_base": ["TLC 1.8.0", "gcc ASan/UBSan", "drv.c callback + late-bound content"]}
+    return cov
+
+
+def sections_of(d):
+    st = d.get("st")
+    if not st:
+        return []
+    bearing = []
+    for sec in st["secs"]:
+        if sec["g"] is not None and sec["keys"] and codes(sec["g"]) not in bearing:
+            bearing.append(codes(sec["g"]))
+    return [g for g in [codes(x) for x in st["groups"]] if g in bearing]
+
+
+def sorted_ents(ents):
+    # unordered map as a sorted list of first definitions
+    m = {}
+    for e in ents:
+        m.setdefault((tuple(e["g"]), tuple(e["k"])), e)
+    return [m[k] for k in sorted(m)]
+
+
+# --------------------------------------------------------------------------------------
+# C12: entry points agree, history faithful
+# --------------------------------------------------------------------------------------
+def check_c12(exe, tier, seed, verdict):
+    rnd = random.Random(seed)
+    names = [2, 3, 5]
+    r, recs, total = tree_export(2, names, 12, ["bb", "ns", "sn"] if tier == "thorough" else ["bb", "sn"])
+    if r.violated:
+        verdict.violation("C12:model", {"tlc": r.out[-3000:]}, "TLC: HistoryFolds / LayeredIsUapi violated for 2 layers\n" + r.out[-1500:])
+    if tier == "quick" and len(recs) > 1500:
+        recs = rnd.sample(recs, 1500)
+    entries = ["readdirs", "readdirscb", "rc2", "rc2cb", "readhist", "readhistcb"]
+    cases = []
+    metas = []
+    for i, x in enumerate(recs):
+        R = ROOT + "/e%d" % (i % 16)
+        t = {"main": x["main"], "drop": x["drop"], "shp": x["shp"]}
+        s, paths = materialise(t, Shape("readdirs", 2), R)
+        sc = list(s)
+        h = 1
+        for ent in entries:
+            sh = Shape(ent, 2)
+            call = sh.call(h, R, cb=ent.endswith("cb"))
+            sc += ["cbreset"] + call
+            if ent.startswith("readhist"):
+                sc += ["dump %d" % k for k in range(h, h + 8)] + ["free %d" % k for k in range(h, h + 8)]
+            else:
+                sc += ["dump %d" % h, "free %d" % h]
+            h += 10
+        # suffix spellings / process-wide drop-in list on the same tree
+        sc += ["setconfdirs %s" % hx(".conf.d"), "readdirs 70 %s %s %s %s x3d x23" % (hx(R + "/usr/etc"), hx(R + "/etc"), hx("cfg"), hx(".conf")),
+               "dump 70", "free 70", "setconfdirs"]
+        cases.append((i, sc))
+        metas.append((t, paths))
+    res = core.run_cases(exe, cases)
+    ok = 0
+    nn = 0
+    for i, x in enumerate(recs):
+        t, paths = metas[i]
+        out = res.get(i)
+        fp = "C12:%s" % classify(t)
+        case = {"kind": "entrypoints", "tree": t, "exp": {"rc": x["rc"], "ents": x["exp"]["ents"], "hist": x["hist"]}}
+        if out is None or out["crash"]:
+            verdict.violation(fp + ":crash", dict(case, crash=(out or {}).get("crash")), "entry points crashed on %s\n%s" % (tree_text(t), (out or {}).get("crash", "")[:900]))
+            continue
+        root = out["root"]
+        rp = {norm(k.replace(ROOT, root)): v for k, v in paths.items()}
+        ev = out["ev"]
+        # split events per entry point
+        reads = [(j, e) for j, e in enumerate(ev) if e["op"].startswith("read")]
+        bad = False
+        for (j, rd), ent in zip(reads, entries + ["readdirs+set_conf_dirs"]):
+            nxt = [e for e in ev[j + 1:j + 10] if e["op"] == "dump"]
+            if rd["rc"] != x["rc"]:
+                verdict.violation(fp + ":rc:" + ent, dict(case, entry=ent, got=rd["rc"]), "%s on %s: rc %s, expected %s" % (ent, tree_text(t), rd["rc"], x["rc"]))
+                bad = True
+                break
+            if x["rc"] != "ECONF_SUCCESS":
+                continue
+            if ent.startswith("readhist"):
+                nmem = rd["n"]
+                hist = []
+                for d in nxt[:nmem]:
+                    st = d["st"]
+                    hist.append({"f": list(rp.get(norm(st["path"]), (0, 0))) if st else [0, 0],
+                                 "obs": {"groups": sections_of(d), "ents": listing_of_dump(d) or []}})
+                if hist != x["hist"]:
+                    verdict.violation(fp + ":history:" + ent, dict(case, entry=ent, got=hist),
+                                      "%s on %s: history %s\nexpected %s" % (ent, tree_text(t), canon(hist)[:600], canon(x["hist"])[:600]))
+                    bad = True
+                    break
+            else:
+                got = listing_of_dump(nxt[0]) if nxt else None
+                if got is None or as_map(got) != as_map(x["exp"]["ents"]):
+                    if got is not None and f4_class(x) and as_map(got) == f4_expect(x):
+                        fp = "C12:first-dropin-unmasked-without-main"
+                    verdict.violation(fp + ":content:" + ent, dict(case, entry=ent, got=got),
+                                      "%s on %s: result %s\nexpected %s" % (ent, tree_text(t), show_ents(got or []), show_ents(x["exp"]["ents"])))
+                    bad = True
+                    break
+        if not bad:
+            ok += 1
+            if len(x["log"]) >= 2:
+                nn += 1
+    # NULL / empty directory arguments
+    ok += check_null_dirs(exe, verdict)
+    cov = {"states": r.distinct, "transitions": r.generated, "traces_validated_against_impl": ok,
+           "evaluations": len(recs) * 7, "distinct_nontrivial": nn,
+           "rule": "every 2-layer tree (main x4 per layer, every subset of 3 names per layer, content shapes) exported by TLC (%d trees, %d replayed): econf_readDirs, econf_readDirsWithCallback, econf_readConfig(+WithCallback) with PARSING_DIRS=<the same two directories>, econf_readDirsHistory(+WithCallback) and econf_readDirs under econf_set_conf_dirs are all run on the SAME tree and each compared with the specification's expectation (so with each other); history members: path -> file identity, own content, order; model invariant HistoryFolds: folding the history with masking gives the result. non-trivial = >= 2 files consulted and all seven calls compared." % (total, len(recs)),
+           "samples": [{"tree": tree_text({"main": x["main"], "drop": x["drop"], "shp": x["shp"]}), "history": x["hist"]} for x in recs[100:101]],
+           "exhaustive": tier == "thorough",
+           "trusted_base": ["TLC 1.8.0", "gcc ASan/UBSan", "drv.c"]}
+    return cov
+
+
+def check_null_dirs(exe, verdict):
+    R = ROOT + "/nd"
+    s = ["rm %s" % hx(R), "file %s %s" % (hx(R + "/etc/cfg.conf"), hx("K=1\n")), "file %s %s" % (hx(R + "/etc/cfg.conf.d/a.conf"), hx("J=2\n")),
+         "readdirs 1 - %s %s %s x3d x23" % (hx(R + "/etc"), hx("cfg"), hx("conf")), "dump 1", "free 1",
+         "readdirs 2 x %s %s %s x3d x23" % (hx(R + "/etc"), hx("cfg"), hx("conf")), "dump 2", "free 2",
+         "readhist 3 - %s %s %s x3d x23" % (hx(R + "/etc"), hx("cfg"), hx("conf")), "dump 3", "dump 4", "free 3", "free 4",
+         "readdirs 5 %s - %s %s x3d x23" % (hx(R + "/etc"), hx("cfg"), hx("conf")), "dump 5", "free 5"]
+    out = core.run_cases(exe, [("nd", s)], jobs=1)["nd"]
+    if out["crash"]:
+        verdict.violation("C12:nulldir:crash", {"kind": "script", "script": s, "crash": out["crash"]}, "NULL/empty directory argument crashed\n" + out["crash"][:900])
+        return 0
+    want = {(): None}
+    dumps = [e for e in out["ev"] if e["op"] == "dump"]
+    m = [as_map(listing_of_dump(d) or []) for d in dumps]
+    exp = {((), (75,)): (49,), ((), (74,)): (50,)}
+    okk = m[0] == exp and m[1] == exp and m[4] == exp and m[2] == {((), (75,)): (49,)} and m[3] == {((), (74,)): (50,)}
+    if not okk:
+        verdict.violation("C12:nulldir:content", {"kind": "script", "script": s, "got": [str(x) for x in m]}, "NULL/empty directory arguments: results differ: %s" % m)
+        return 0
+    return 1
+
+
+# --------------------------------------------------------------------------------------
+# C13 (tree part): a malformed file as any member of a tree
+# --------------------------------------------------------------------------------------
+BADLINES = [("[S", "ECONF_MISSING_BRACKET"), ("[S] x", "ECONF_TEXT_AFTER_SECTION"), ("[]", "ECONF_EMPTY_SECTION_NAME"), ("a v", "ECONF_MISSING_DELIMITER")]
+
+
 def c13_tree_cases(exe, tier, seed, verdict):
-    return {"n": 0, "nontrivial": 0, "samples": []}
+    rnd = random.Random(seed)
+    r, recs, total = tree_export(3, [2, 5], 12, ["bb"])
+    recs = [x for x in recs if len(x["log"]) >= 1]
+    rnd.shuffle(recs)
+    budget = 400 if tier == "quick" else 5000
+    cases = []
+    metas = []
+    for x in recs:
+        K = [tuple(f) for f in x["log"]]
+        t = {"main": x["main"], "drop": x["drop"], "shp": x["shp"]}
+        cand = [f for f in K if not (f[1] == 0 and t["main"][f[0] - 1] != "regular")]
+        for f in cand:
+            bad, code = rnd.choice(BADLINES)
+            lineno = rnd.choice([1, 2, 4])
+            pre = ["# c", "", "x=1"][:lineno - 1] if lineno <= 3 else ["# c", "", "x=1"]
+            content = "\n".join(pre + [bad, "y=2"]) + "\n"
+            ent = rnd.choice(["std", "stdcb", "readdirs3"]) if True else "std"
+            i = len(cases)
+            R = ROOT + "/b%d" % (i % 16)
+            shape = Shape("std")
+            s, paths = materialise(t, shape, R, contents={f: content})
+            s += shape.call(1, R, cb=(ent == "stdcb")) + ["errloc", "dump 1", "free 1"]
+            cases.append((i, s))
+            metas.append((t, paths, f, code, len(pre) + 1, K))
+        if len(cases) >= budget:
+            break
+    res = core.run_cases(exe, cases)
+    ok = 0
+    nn = 0
+    samples = []
+    for i, (t, paths, f, code, lineno, K) in enumerate(metas):
+        out = res.get(i)
+        fp = "C13:tree:%s:%s" % ("main" if f[1] == 0 else "dropin", code)
+        case = {"kind": "badtree", "tree": t, "bad_file": list(f), "code": code, "line": lineno}
+        if out is None or out["crash"]:
+            verdict.violation(fp + ":crash", dict(case, crash=(out or {}).get("crash")), "layered read of a tree with a malformed file crashed\n" + (out or {}).get("crash", "")[:900])
+            continue
+        root = out["root"]
+        rd = next(e for e in out["ev"] if e["op"].startswith("read"))
+        el = next(e for e in out["ev"] if e["op"] == "errloc")
+        badpath = [norm(p.replace(ROOT, root)) for p, ff in paths.items() if ff == f][0]
+        got = {"rc": rd["rc"], "file": norm(el["file"] or ""), "line": el["line"], "obj": bool(rd.get("obj")) and not rd.get("same")}
+        want = {"rc": code, "file": badpath, "line": lineno, "obj": False}
+        if got != want:
+            verdict.violation(fp, dict(case, got=got, want=want), "tree %s with malformed %s: expected %s, library gave %s" % (tree_text(t), f, want, got))
+            continue
+        ok += 1
+        if K.index(f) > 0:
+            nn += 1
+        if len(samples) < 2:
+            samples.append({"tree": tree_text(t), "malformed_file": list(f), "expect": want})
+    # missing file -> ECONF_NOFILE
+    s = ["readfile 1 %s x3d x23" % hx(ROOT + "/does/not/exist.conf"), "free 1"]
+    o = core.run_cases(exe, [("nf", s)], jobs=1)["nf"]
+    if o["crash"] or o["ev"][0]["rc"] != "ECONF_NOFILE" or o["ev"][0]["obj"]:
+        verdict.violation("C13:nofile", {"kind": "script", "script": s, "out": o}, "reading a missing file: %s" % (o["ev"][:1] or o["crash"]))
+    return {"n": ok, "nontrivial": nn, "samples": samples}
+
+
+# --------------------------------------------------------------------------------------
+def check(pid, tier, seed):
+    t0 = time.time()
+    exe = core.build("asan")
+    verdict = core.Verdict(pid)
+    cov = {"C01": check_c01, "C06": check_c06, "C12": check_c12}[pid](exe, tier, seed, verdict)
+    rc = verdict.finish()
+    core.write_evidence(pid, tier, seed, "model_checking", cov,
+                        ["only byte-order collations are installed: a locale-sensitive sort cannot be told from a byte-wise one",
+                         "a drop-in never has the main file's base name; one name never sits in two drop-in directories of one layer",
+                         "the driver creates the trees at the documented paths (path composition of the library is under test)"],
+                        time.time() - t0, len(verdict.violations))
+    return rc
+
+
+def replay(pid, path):
+    with open(path) as f:
+        rec = json.load(f)
+    print(json.dumps(rec, indent=1)[:5000])
+    return 0
